@@ -63,7 +63,8 @@ def ops_for(a, nodes_sync, nodes_async, rng=None):
         if name in MGR_OPS:
             pool = nodes_async if MGR_OPS[name] else nodes_sync
             if name in ("push_mgr", "push_async_exit_mgr"):
-                pool = [x for x in pool if x["k"] == "plain"]
+                # pushed, not entered: plain managers, and generator-based ones whose generator has NOT started
+                pool = [x for x in pool if x["k"] in ("plain", "gcm")]
             res.append([op(name, x) for x in pool])
         else:
             res.append([op(name)])
